@@ -45,6 +45,42 @@ fn replace_at(s: &Rc<Stmt>, k: &mut isize, fresh: usize) -> Rc<Stmt> {
     })
 }
 
+/// replace the conditional with pre-order index `k` by one of its branches
+fn collapse_if(s: &Rc<Stmt>, k: &mut isize, take_then: bool) -> Rc<Stmt> {
+    if *k < 0 {
+        return s.clone();
+    }
+    if *k == 0 {
+        *k = -1;
+        if let Stmt::If { thenc, elsec, .. } = &**s {
+            return if take_then { thenc.clone() } else { elsec.clone() };
+        }
+        return s.clone();
+    }
+    *k -= 1;
+    let cl = |cs: &Vec<Clause>, k: &mut isize| -> Vec<Clause> {
+        cs.iter().map(|c| Clause { xtor: c.xtor.clone(), ctx: c.ctx.clone(), body: collapse_if(&c.body, k, take_then) }).collect()
+    };
+    Rc::new(match &**s {
+        Stmt::Subst { map, next } => Stmt::Subst { map: map.clone(), next: collapse_if(next, k, take_then) },
+        Stmt::Let { var, ty, tag, args, next } => Stmt::Let { var: var.clone(), ty: ty.clone(), tag: tag.clone(), args: args.clone(), next: collapse_if(next, k, take_then) },
+        Stmt::Lit { lit, var, next } => Stmt::Lit { lit: *lit, var: var.clone(), next: collapse_if(next, k, take_then) },
+        Stmt::Op { fst, op, snd, var, next } => Stmt::Op { fst: fst.clone(), op: *op, snd: snd.clone(), var: var.clone(), next: collapse_if(next, k, take_then) },
+        Stmt::Print { newline, var, next } => Stmt::Print { newline: *newline, var: var.clone(), next: collapse_if(next, k, take_then) },
+        Stmt::Create { var, ty, env, clauses, next } => {
+            let c2 = cl(clauses, k);
+            Stmt::Create { var: var.clone(), ty: ty.clone(), env: env.clone(), clauses: c2, next: collapse_if(next, k, take_then) }
+        }
+        Stmt::Switch { var, ty, clauses } => Stmt::Switch { var: var.clone(), ty: ty.clone(), clauses: cl(clauses, k) },
+        Stmt::If { sort, fst, snd, thenc, elsec } => {
+            let t = collapse_if(thenc, k, take_then);
+            let e = collapse_if(elsec, k, take_then);
+            Stmt::If { sort: *sort, fst: fst.clone(), snd: snd.clone(), thenc: t, elsec: e }
+        }
+        other => other.clone(),
+    })
+}
+
 /// drop the linear statement with pre-order index `k` (lit / op / print), keeping its continuation
 fn drop_at(s: &Rc<Stmt>, k: &mut isize) -> Rc<Stmt> {
     if *k == 0 {
@@ -280,6 +316,39 @@ pub fn minimize(rp: &mut Replay, mut attempts: usize) {
                     }
                 }
                 k += 1;
+            }
+        }
+        // 3b. collapse conditionals to one branch
+        for di in 0..rp.scenario.prog.defs.len() {
+            let mut k = 0usize;
+            loop {
+                let n = count(&rp.scenario.prog.defs[di].body);
+                if k >= n || attempts == 0 {
+                    break;
+                }
+                let mut advanced = false;
+                for take_then in [true, false] {
+                    let mut kk = k as isize;
+                    let nb = collapse_if(&rp.scenario.prog.defs[di].body, &mut kk, take_then);
+                    if count(&nb) >= n {
+                        continue;
+                    }
+                    let mut cand = rp.clone();
+                    cand.scenario.prog.defs[di].body = nb;
+                    if valid(&cand.scenario.prog, &cand.scenario.args) {
+                        attempts -= 1;
+                        if let Some(m) = fails(&cand) {
+                            cand.message = m;
+                            *rp = cand;
+                            progress = true;
+                            advanced = true;
+                            break;
+                        }
+                    }
+                }
+                if !advanced {
+                    k += 1;
+                }
             }
         }
         // 4. drop single linear statements
